@@ -5,5 +5,8 @@
 #define GEN_POS(d_)  ((d_)->pos)
 #define GEN_ELEM(d_) ((d_)->elem)
 #define GEN_SETPOS(d_, p_) ((d_)->pos = (p_))
-#define GEN_EXPECT(d_, p_)  ((p_) == 0 ? in_a : ((p_) + 1 < in_elem ? in_b : in_c))
-#define GEN_EXPECT_NEXT(d_, p_, cur_) GEN_EXPECT(d_, (p_) + 1)
+/* left boundary first, right boundary last, the inner value in between (from the constructor arguments) */
+#define GEN_EXPECT(d_)  ((d_)->pos == 0 ? in_a : ((d_)->pos + 1 < in_elem ? in_b : in_c))
+#define GEN_EXPECT_NEXT(d_, cur_) GEN_EXPECT(d_)
+#define GEN_SAME_PARAMS(a_, b_) (bits((a_)->left) == bits((b_)->left) && bits((a_)->inter) == bits((b_)->inter) && bits((a_)->right) == bits((b_)->right))
+#define GEN_BEFORE_ADVANCE(d_) ((void) 0)
